@@ -17,7 +17,7 @@ ASSUMPTIONS = []
 
 
 def served(rng, ident):
-    ct = rng.choice([0, 1, 1, 2, 2, 3, 77])
+    ct = rng.choice([0, 1, 1, 2, 2, 3, 77, -1, -2, -129, 128, 65536])
     a = [100, mp.gen_value(rng, 2)]
     if rng.chance(1, 5):
         a = [100, ("b", b"")]
@@ -33,7 +33,7 @@ def served(rng, ident):
 
 
 def called(rng, ident):
-    ct = rng.choice([1, 1, 2, 2, 3, 77])
+    ct = rng.choice([1, 1, 2, 2, 3, 77, -1, -3, 255, 2 ** 31])
     a = [1, mp.gen_value(rng, 2)]
     r = [1, mp.gen_value(rng, 2)]
     s = ["call/c1/%s/%s/%d/-/0" % (scn.M.hex(), T(a), ct), "replyto/1/%s/%d" % (T(r), ct if ct in (1, 2) else 0), "await/c1", "settle"]
@@ -100,7 +100,7 @@ def explore(ctx):
         # both ends are the package: the same call uncompressed and compressed, for results, nil results, handler errors,
         # unknown methods and protocols; then the uncompressed call again
         for _ in range({"quick": 250, "thorough": 5000, "search": 600}[tier]):
-            ct = rng.choice([1, 1, 2, 2, 3, 77, 0])
+            ct = rng.choice([1, 1, 2, 2, 3, 77, 0, -1, -2, -128, 4, 256])
             arg = rng.choice(["-", "n", T(("b", b"")), T(mp.gen_value(rng, 2)), T([1, mp.gen_value(rng, 2)])])
             how = rng.below(6)
             if how == 0:
